@@ -1,1 +1,2 @@
 void create() { seteuid(getuid()); }
+int nop() { return 1; }
